@@ -37,6 +37,8 @@ def make_operand(kind, s, exp, c):
         return RealFloat(bool(s), exp, c)
     if kind == 'Float':
         return Float(bool(s), exp, c)
+    if kind == 'FloatFlagged':
+        return Float(bool(s), exp, c, overflow=True, inexact=True, invalid=True, divzero=True, carry=True, tiny_pre=True, tiny_post=True)
     v = Fraction(-c if s else c) * Fraction(2) ** exp
     if kind == 'int':
         assert v.denominator == 1
